@@ -9,6 +9,7 @@ import (
 	"fmt"
 	"os"
 	"path/filepath"
+	"regexp"
 	"sort"
 	"strconv"
 	"strings"
@@ -59,6 +60,10 @@ type KnownFinding struct {
 	Inputs     []string `json:"inputs,omitempty"`
 	InputsFile string   `json:"inputs_file,omitempty"`
 	inputSet   map[string]bool
+	// Regex: Signature is a regular expression (anchored by the author) covering a family of class signatures.
+	Regex bool   `json:"regex,omitempty"`
+	Name  string `json:"name,omitempty"` // short name printed in the KNOWN-FINDING line (default: the signature)
+	re    *regexp.Regexp
 }
 
 type Ctx struct {
@@ -71,8 +76,10 @@ type Ctx struct {
 
 	mu          sync.Mutex
 	known       map[string]KnownFinding
+	knownRE     []KnownFinding
 	knownHits   map[string]int64
 	knownEx     map[string]string
+	knownDesc   map[string]string
 	violations  int
 	violSeen    map[string]int
 	broken      []string // machinery failures
@@ -97,7 +104,7 @@ func NewCtx(d Driver, tier string) *Ctx {
 		}
 	}
 	c := &Ctx{ID: d.ID(), Tier: tier, Seed: seed, Workers: 12, Start: time.Now(), drv: d,
-		known: map[string]KnownFinding{}, knownHits: map[string]int64{}, knownEx: map[string]string{},
+		known: map[string]KnownFinding{}, knownHits: map[string]int64{}, knownEx: map[string]string{}, knownDesc: map[string]string{},
 		violSeen: map[string]int{}, Extra: map[string]any{}, Level: "model_checking"}
 	// known findings: /verif/known_findings.json plus /verif/known_findings.d/*.json (committed, never written at run time)
 	files := []string{filepath.Join(VerifDir, "known_findings.json")}
@@ -117,6 +124,16 @@ func NewCtx(d Driver, tier string) *Ctx {
 			continue
 		}
 		for _, k := range kf.Findings {
+			if k.Property == c.ID && k.Status == "known" && k.Regex {
+				re, err := regexp.Compile(k.Signature)
+				if err != nil {
+					c.Broken(f + ": bad signature regex: " + err.Error())
+					continue
+				}
+				k.re = re
+				c.knownRE = append(c.knownRE, k)
+				continue
+			}
 			if k.Property == c.ID && k.Status == "known" {
 				if len(k.Inputs) > 0 || k.InputsFile != "" {
 					k.inputSet = map[string]bool{}
@@ -145,6 +162,23 @@ func NewCtx(d Driver, tier string) *Ctx {
 		}
 	}
 	return c
+}
+
+// lookupKnown returns the known finding covering the mismatch (exact signature, optionally per input; or a regex family).
+// The returned name is the key under which hits are counted.
+func (c *Ctx) lookupKnown(m Mismatch) (KnownFinding, string, bool) {
+	if kf, ok := c.known[m.Signature]; ok && (kf.inputSet == nil || kf.inputSet[m.Key]) {
+		return kf, m.Signature, true
+	}
+	for _, kf := range c.knownRE {
+		if kf.re.MatchString(m.Signature) {
+			if kf.Name != "" {
+				return kf, kf.Name, true
+			}
+			return kf, kf.Signature, true
+		}
+	}
+	return KnownFinding{}, "", false
 }
 
 func (c *Ctx) Thorough() bool { return c.Tier == "thorough" }
@@ -277,10 +311,11 @@ func (c *Ctx) Report(scenario any, ms []Mismatch) bool {
 			continue
 		}
 		c.mu.Lock()
-		if kf, ok := c.known[m.Signature]; ok && (kf.inputSet == nil || kf.inputSet[m.Key]) {
-			c.knownHits[m.Signature]++
-			if _, have := c.knownEx[m.Signature]; !have {
-				c.knownEx[m.Signature] = m.Detail
+		if kf, name, ok := c.lookupKnown(m); ok {
+			c.knownHits[name]++
+			c.knownDesc[name] = kf.Description
+			if _, have := c.knownEx[name]; !have {
+				c.knownEx[name] = m.Detail
 			}
 			c.mu.Unlock()
 			continue
@@ -336,7 +371,7 @@ func (c *Ctx) Finish() int {
 	sort.Strings(sigs)
 	masked := map[string]any{}
 	for _, s := range sigs {
-		fmt.Printf("KNOWN-FINDING: property=%s %s: %s (%d scenarios; e.g. %s)\n", c.ID, s, c.known[s].Description, c.knownHits[s], trunc(c.knownEx[s], 300))
+		fmt.Printf("KNOWN-FINDING: property=%s %s: %s (%d scenarios; e.g. %s)\n", c.ID, s, c.knownDesc[s], c.knownHits[s], trunc(c.knownEx[s], 300))
 		masked[s] = c.knownHits[s]
 	}
 	if len(c.violSeen) > 0 {
@@ -405,7 +440,7 @@ func RunReplay(d Driver, path string) int {
 		fmt.Printf("mismatch signature=%s %s\n", m.Signature, m.Detail)
 	}
 	for _, m := range ms {
-		if kf, ok := c.known[m.Signature]; !ok || (kf.inputSet != nil && !kf.inputSet[m.Key]) {
+		if _, _, ok := c.lookupKnown(m); !ok {
 			fmt.Printf("VIOLATION property=%s replay=%s\n", d.ID(), path)
 			return 1
 		}
